@@ -15,7 +15,7 @@ not stated otherwise — the comparison `lt` are ARBITRARY functions: the Arnold
 algebra, no orthogonality is used.  The operator `f` is an arbitrary function `E → E` for the relations and a
 linear map where invariant subspaces / polynomials are involved.
 
-* §1 `expand_relation`, `arnoldi_relation`, `lanczos_relation` : `f V[j] = Σ_i H[(i,j)] V[i]` for every built column
+* §1 `expand_relation`, `arnoldi_relation`, `lanczos_relation`, `lanczos_tridiagonal`, `lanczos_three_term` : `f V[j] = Σ_i H[(i,j)] V[i]` for every built column
 * §2 `happy_invariant`, `happy_invariant_span` : after an exact happy breakdown `f V = V T`, `span V` is invariant
 * §3 `ritz_exact`, `eigs_ritz_exact` : eigen-pairs of `T` give eigen-pairs of `f`
 * §4 `expmv_exact_pow`, `expmv_exact_poly`, `expmv_exact` : `p(f) (V y) = V (p(T) y)` for every polynomial `p`,
@@ -85,6 +85,43 @@ theorem lanczos_relation (f : E → E) (tol : K) (ncv : Nat) (q0 : E) (hlt : ∀
           (expand (fieldArith ip sq ab rp lt) f tol ncv true { V := [q0], cols := [] }).1.cols i j •
         (expand (fieldArith ip sq ab rp lt) f tol ncv true { V := [q0], cols := [] }).1.V.getD i 0 :=
   ((expand_relation ip sq ab rp lt f tol ncv true _ hlt (kinv_init f q0)).1 hh).sum_rel ip sq ab rp lt hj
+
+/-- **C18 clause "Lanczos: tridiagonal, super-diagonal copied from the sub-diagonal"** (any `f`, `ip`, `sq`,
+`lt`, `tol`; happy or not): `H[(i,j)] = 0` for `i < j-1` and `H[(j-1,j)] = H[(j,j-1)]` – the model (like the code)
+COPIES the entry, it does not conjugate it. -/
+theorem lanczos_tridiagonal (f : E → E) (tol : K) (ncv : Nat) (q0 : E) (j : Nat)
+    (hj : j < (expand (fieldArith ip sq ab rp lt) f tol ncv true { V := [q0], cols := [] }).1.cols.length) :
+    (∀ i, i + 1 < j → hEntry (fieldArith ip sq ab rp lt : Arith K E)
+      (expand (fieldArith ip sq ab rp lt) f tol ncv true { V := [q0], cols := [] }).1.cols i j = 0) ∧
+    (1 ≤ j → hEntry (fieldArith ip sq ab rp lt : Arith K E)
+        (expand (fieldArith ip sq ab rp lt) f tol ncv true { V := [q0], cols := [] }).1.cols (j - 1) j
+      = hEntry (fieldArith ip sq ab rp lt : Arith K E)
+        (expand (fieldArith ip sq ab rp lt) f tol ncv true { V := [q0], cols := [] }).1.cols j (j - 1)) :=
+  expandLoop_tri ip sq ab rp lt f tol _ _ rfl (fun j hj => by simp at hj) j hj
+
+/-- **C18 clause "Lanczos three-term recurrence"**:
+`f V[j] = H[(j,j-1)] V[j-1] + H[(j,j)] V[j] + H[(j+1,j)] V[j+1]` for `1 ≤ j` (no breakdown). -/
+theorem lanczos_three_term (f : E → E) (tol : K) (ncv : Nat) (q0 : E) (hlt : ∀ x, lt x tol = false → x ≠ 0)
+    (hh : (expand (fieldArith ip sq ab rp lt) f tol ncv true { V := [q0], cols := [] }).2 = false)
+    (k : Nat) (hj : k + 1 < (expand (fieldArith ip sq ab rp lt) f tol ncv true { V := [q0], cols := [] }).1.cols.length) :
+    f ((expand (fieldArith ip sq ab rp lt) f tol ncv true { V := [q0], cols := [] }).1.V.getD (k + 1) 0) =
+      hEntry (fieldArith ip sq ab rp lt : Arith K E)
+          (expand (fieldArith ip sq ab rp lt) f tol ncv true { V := [q0], cols := [] }).1.cols (k + 1) k •
+        (expand (fieldArith ip sq ab rp lt) f tol ncv true { V := [q0], cols := [] }).1.V.getD k 0 +
+      hEntry (fieldArith ip sq ab rp lt : Arith K E)
+          (expand (fieldArith ip sq ab rp lt) f tol ncv true { V := [q0], cols := [] }).1.cols (k + 1) (k + 1) •
+        (expand (fieldArith ip sq ab rp lt) f tol ncv true { V := [q0], cols := [] }).1.V.getD (k + 1) 0 +
+      hEntry (fieldArith ip sq ab rp lt : Arith K E)
+          (expand (fieldArith ip sq ab rp lt) f tol ncv true { V := [q0], cols := [] }).1.cols (k + 2) (k + 1) •
+        (expand (fieldArith ip sq ab rp lt) f tol ncv true { V := [q0], cols := [] }).1.V.getD (k + 2) 0 := by
+  rw [lanczos_relation ip sq ab rp lt f tol ncv q0 hlt hh (k + 1) hj]
+  obtain ⟨h0, h1⟩ := lanczos_tridiagonal ip sq ab rp lt f tol ncv q0 (k + 1) hj
+  rw [Finset.sum_range_succ, Finset.sum_range_succ, Finset.sum_range_succ, Finset.sum_eq_zero, zero_add]
+  · have := h1 (by omega)
+    simp only [Nat.add_sub_cancel] at this
+    rw [this]
+  · intro i hi
+    rw [h0 i (by have := Finset.mem_range.mp hi; omega), zero_smul]
 
 /-- **C18 clause "relation on a happy breakdown"** (both flags): `len(cols) = len(V) = m`, columns `j < m-1`
 satisfy the relation exactly and have `j+2` entries, the last one has `m` entries and
